@@ -47,8 +47,13 @@ def yaml_scalar(v):
 
 
 def render_veneers(pkg, rules):
-    """option rules -> veneers YAML (internal/yaml/veneers.go); JSON is YAML"""
-    return json.dumps({"language": "all", "package": pkg, "options": rules}, indent=1) + "\n"
+    """veneer rules -> veneers YAML (internal/yaml/veneers.go); JSON is YAML.
+    rules: a list of option rules, or {"builders": [builder rules], "options": [option rules]}"""
+    if isinstance(rules, dict):
+        doc = {"language": "all", "package": pkg, "builders": rules.get("builders") or [], "options": rules.get("options") or []}
+    else:
+        doc = {"language": "all", "package": pkg, "options": rules}
+    return json.dumps(doc, indent=1) + "\n"
 
 
 class BldBatch:
@@ -1158,3 +1163,96 @@ def env_def(sid, lang, lang_out, defaults):
             "Definition env_%s : benv := mkBEnv ctx_%s bld_%s %s.\n"
             % (tag, lang_out["schemas"], tag, lang_out["builders"], tag, tag, tag,
                gencode.g_list("(%s, %s, %s)" % (G(p), G(n), v) for p, n, v in defaults)))
+
+
+# ====================================================================== targeted scenarios
+def _F(n, t, req=False, null=False):
+    return {"name": n, "t": t, "req": req, "null": null}
+
+
+def _scalar_arg(name, kind):
+    return {"name": name, "type": {"kind": "scalar", "nullable": False, "scalar": {"scalar_kind": kind}}}
+
+
+def _arg_assignment(path, name, kind):
+    return {"path": path, "method": "direct", "value": {"argument": _scalar_arg(name, kind)}}
+
+
+def scenarios(rng, prefix="t"):
+    """hand-shaped schemas + veneers for builder / converter shapes the random generator reaches rarely or never
+    (randomised in names, depth, format).  Each: {"schema": Src, "fmt", "veneers", "docs": {def: [documents]},
+    "shape": label}.
+
+      nested-optional : options added with the `add_option` builder veneer that assign at several depths under nested
+                        OPTIONAL structs, the deepest assignment not first (nil checks per assignment prefix)
+      shared-constant : several options carrying the same constant side-assignment (add_assignment veneers)
+      union-list      : a list of a union exposed as one appending option per branch (array_to_append +
+                        disjunction_as_options); documents interleave the branches
+    """
+    out = []
+    fmts = list(srcgen.FORMATS)
+    k = [0]
+
+    def pkg():
+        k[0] += 1
+        return "%s%03d" % (prefix, k[0])
+
+    names = ["options", "legend", "style", "axis", "grid", "frame"]
+    # ---- nested-optional
+    for variant in range(3):
+        rng.shuffle(names)
+        o, l, st = names[0], names[1], names[2]
+        req_mid = variant == 1 and rng.random() < 0.5
+        Style = {"name": "Style", "t": {"k": "struct", "fields": [_F("color", {"k": "string"}), _F("width", {"k": "int", "w": "int64"})]}}
+        Legend = {"name": "Legend", "t": {"k": "struct", "fields": sorted([
+            _F("pos", {"k": "string"}), _F("show", {"k": "bool"}), _F(st, {"k": "ref", "name": "Style"})], key=lambda f: f["name"])}}
+        Options = {"name": "Options", "t": {"k": "struct", "fields": sorted([
+            _F("title", {"k": "string"}), _F("n", {"k": "int", "w": "int64"}),
+            _F(l, {"k": "ref", "name": "Legend"}, req=req_mid, null=req_mid)], key=lambda f: f["name"])}}
+        Root = {"name": "Root", "t": {"k": "struct", "fields": sorted([
+            _F("name", {"k": "string"}), _F(o, {"k": "ref", "name": "Options"})], key=lambda f: f["name"])}}
+        if variant == 0:
+            asg = [_arg_assignment("%s.title" % o, "title", "string"), _arg_assignment("%s.%s.show" % (o, l), "show", "bool")]
+            args = [_scalar_arg("title", "string"), _scalar_arg("show", "bool")]
+        elif variant == 1:
+            asg = [_arg_assignment("%s.%s.pos" % (o, l), "pos", "string"), _arg_assignment("%s.%s.%s.color" % (o, l, st), "color", "string")]
+            args = [_scalar_arg("pos", "string"), _scalar_arg("color", "string")]
+        else:
+            asg = [_arg_assignment("%s.n" % o, "n", "int64"), _arg_assignment("%s.%s.show" % (o, l), "show", "bool"),
+                   _arg_assignment("%s.%s.%s.width" % (o, l, st), "width", "int64")]
+            args = [_scalar_arg("n", "int64"), _scalar_arg("show", "bool"), _scalar_arg("width", "int64")]
+        ven = {"builders": [{"add_option": {"by_object": "Root", "option": {"name": "configure", "arguments": args, "assignments": asg}}}]}
+        schema = {"pkg": pkg(), "root": "Root", "defs": sorted([Style, Legend, Options, Root], key=lambda d: d["name"])}
+        out.append({"schema": schema, "fmt": fmts[variant % 3], "veneers": ven, "shape": "nested-optional", "docs": {}})
+    # ---- shared-constant
+    for variant in range(3):
+        mode, a, b = rng.choice([("mode", "min", "max"), ("kind", "lo", "hi"), ("scale", "from", "to")])
+        const = rng.choice(["custom", "manual", "fixed"])
+        num = {"k": "float", "w": "float64"} if variant != 1 else {"k": "int", "w": "int64"}
+        fields = [_F("title", {"k": "string"}, True), _F(mode, {"k": "string"}, True), _F(a, dict(num), True), _F(b, dict(num), True)]
+        rules = [{"add_assignment": {"by_name": "Root.%s" % x, "assignment": {"path": mode, "method": "direct", "value": {"constant": const}}}}
+                 for x in (a, b)]
+        if variant == 2:
+            fields.append(_F("flag", {"k": "bool"}, True))
+            rules.append({"add_assignment": {"by_name": "Root.flag", "assignment": {"path": mode, "method": "direct", "value": {"constant": const}}}})
+        schema = {"pkg": pkg(), "root": "Root", "defs": [{"name": "Root", "t": {"k": "struct", "fields": sorted(fields, key=lambda f: f["name"])}}]}
+        one = 1 if variant == 1 else Decimal("2.5")
+        base = {"title": "demo", mode: "auto", a: 0, b: 0}
+        docs = [dict(base), dict(base, **{mode: const, a: one, b: 7}), dict(base, **{mode: const}), dict(base, **{mode: "other", "title": "x"})]
+        if variant == 2:
+            docs = [dict(d, flag=False) for d in docs] + [dict(base, **{mode: const, "flag": True})]
+        out.append({"schema": schema, "fmt": fmts[(variant + 1) % 3], "veneers": {"options": rules}, "shape": "shared-constant",
+                    "docs": {"Root": docs}})
+    # ---- union-list
+    for variant in range(3):
+        f = rng.choice(["items", "values", "parts"])
+        second = [{"k": "bool"}, {"k": "int", "w": "int64"}, {"k": "bool"}][variant]
+        fields = [_F("title", {"k": "string"}, True), _F(f, {"k": "array", "of": {"k": "union", "of": [{"k": "string"}, second]}}, variant != 2)]
+        schema = {"pkg": pkg(), "root": "Root", "defs": [{"name": "Root", "t": {"k": "struct", "fields": sorted(fields, key=lambda x: x["name"])}}]}
+        y, z = (True, False) if second["k"] == "bool" else (3, -4)
+        docs = [{"title": "t", f: ["a", y, "b"]}, {"title": "t", f: [y, "a", z, "b", "c"]}, {"title": "t", f: ["x"]}, {"title": "t", f: [y, z]},
+                {"title": "t", f: []}]
+        rules = [{"array_to_append": {"by_name": "Root.%s" % f}}, {"disjunction_as_options": {"by_name": "Root.%s" % f}}]
+        out.append({"schema": schema, "fmt": fmts[(variant + 2) % 3], "veneers": {"options": rules}, "shape": "union-list",
+                    "docs": {"Root": docs}})
+    return out
